@@ -4,9 +4,11 @@ recurrences those closed forms refer to (Hermite, Laguerre loop bodies), the pie
 sag-and-slope assemblies compute_z_zprime_Qbfs / _Qcon and the per-m slope terms of compute_z_zprime_Q2d.
 """
 import ast
+import copy
 from pyexpr2lean import (Gen, Tr, Untranslatable, load, get_def, find_assign, find_assigns, find_returns,
                          find_calls, body_to_lean)
-from pysym import normalised_def, SymEx, canonical_locals, local_assigned_with, canon_cond, merge_paths, U as unp
+from pyexpr2lean import get_def as raw_def
+from pysym import normalised_def, float_entry_params, names_stored, SymEx, canonical_locals, local_assigned_with, canon_cond, merge_paths, U as unp
 from gen_c10 import (norm, nenv, sub_assigns, for_loops, range_args, index_of, reads_of, tuple_unpack_calls,
                      returns_in_order, I, N, HDR, snorm, stmt_is, GenT, tri, alpha_norm, is_rebind, MATERIALISERS, iter_params_fact, q2d_sides)
 
@@ -72,6 +74,317 @@ def der_table(fn, top, coef_fn, coef_pos_name):
 
 def pairs(lst):
     return '[' + ', '.join(f'({a}, {b})' for a, b in lst) + ']'
+
+
+# ------------------------------------------------------------------------------------------------
+# sequence forms (`*_der_seq`) and delegating routines
+# ------------------------------------------------------------------------------------------------
+
+
+def seq_sweep(module, fn, extra_names=()):
+    """the sweep of a `*_der_seq` routine: explicit low orders, then one loop over the order that emits one row per requested order.
+    Returns dict(rows={order: expr}, init={local: expr}, nxt={local: expr}, emit=expr, loopvar, ok (structure))
+    - every expression fully expanded over the parameters, the loop variable and the three locals on entry to an iteration"""
+    loops = for_loops(fn)
+    if len(loops) != 1:
+        raise Untranslatable(f'{fn.name}: expected one loop over the order')
+    loop = loops[0]
+    if loop not in fn.body:
+        raise Untranslatable(f'{fn.name}: the loop is nested')
+    it = loop.target.id if isinstance(loop.target, ast.Name) else None
+    if it is None:
+        raise Untranslatable('loop target')
+    sx = SymEx(module)
+    sx.identity = sx._identities(fn)
+    env, rows = {}, {}
+    order_ok = True
+    k_loop = fn.body.index(loop)
+
+    def emission(st, var):
+        """`if ns[min_i] == <var>: [locals...]; out[min_i] = E; min_i += 1`  ->  (order text, statements before the store, E)"""
+        if not (isinstance(st, ast.If) and not st.orelse and isinstance(st.test, ast.Compare) and len(st.test.ops) == 1
+                and isinstance(st.test.ops[0], ast.Eq) and unp(st.test.left) == 'ns[min_i]'):
+            return None
+        stores = [s for s in st.body if isinstance(s, ast.Assign) and unp(s.targets[0]) == 'out[min_i]']
+        bump = [s for s in st.body if stmt_is(s, 'min_i += 1')]
+        if len(stores) != 1 or len(bump) != 1 or st.body.index(bump[0]) < st.body.index(stores[0]):
+            return None
+        pre = st.body[:st.body.index(stores[0])]
+        if any(not isinstance(s, ast.Assign) for s in pre):
+            return None
+        return st.test.comparators[0], pre, stores[0].value
+
+    for st in fn.body[:k_loop]:
+        if isinstance(st, ast.Expr) and isinstance(st.value, ast.Constant):
+            continue
+        em = emission(st, None)
+        if em is not None:
+            order, pre, val = em
+            if not (isinstance(order, ast.Constant) and isinstance(order.value, int)):
+                raise Untranslatable('explicit row for a non-literal order')
+            e2 = dict(env)
+            for s in pre:
+                for t in s.targets:
+                    sx.assign(t, sx.expand(s.value, e2), e2, [])
+            if rows and order.value != max(rows) + 1:
+                order_ok = False
+            rows[order.value] = sx.expand(val, e2)
+            continue
+        if isinstance(st, ast.If) and stmt_is(st, 'if min_i == len(ns):\n    return out'):
+            continue
+        if is_rebind(st, 'ns'):
+            continue                                   # ns = list(ns): the same orders, kept by name
+        if isinstance(st, ast.Assign):
+            for t in st.targets:
+                sx.assign(t, sx.expand(st.value, env), env, [])
+            continue
+        raise Untranslatable(f'{fn.name}: statement before the loop not understood: {unp(st)[:60]}')
+    if sorted(rows) != list(range(len(rows))) or 0 not in rows:
+        order_ok = False
+    first = len(rows)
+    it_exp = sx.expand(loop.iter, {k: v for k, v in env.items() if k == 'max_n'})
+    start = it_exp.args[0].value if isinstance(it_exp, ast.Call) and unp(it_exp.func) == 'range' and len(it_exp.args) == 2 \
+        and isinstance(it_exp.args[0], ast.Constant) and isinstance(it_exp.args[0].value, int) else None
+    rng_ok = start is not None and norm(unp(it_exp)) == norm(f'range({start}, ns[-1] + 1)')
+    # one iteration, symbolically, from fresh locals
+    killed = names_stored([loop])
+    benv = {k: v for k, v in env.items() if k not in killed and not ({n.id for n in ast.walk(v) if isinstance(n, ast.Name)} & killed)}
+    paths = sx.block(list(loop.body), benv, [], [])
+    emitting = [p for p in paths if any(ev[0] == 'store' and unp(ev[1]) == 'out[min_i]' for ev in p.events)]
+    quiet = [p for p in paths if p not in emitting]
+    if not emitting:
+        raise Untranslatable(f'{fn.name}: the loop body never emits')
+    # (after the emission the routine may return early: several emitting paths, all with the same single store)
+    guard_ok = all((f'ns[min_i] == {it}', True) in p.conds for p in emitting) and all((f'ns[min_i] == {it}', False) in p.conds for p in quiet)
+    for p in emitting:
+        if len([ev for ev in p.events if ev[0] == 'store']) != 1:
+            raise Untranslatable('more than one store on an emitting path')
+    vals = {unp([ev for ev in p.events if ev[0] == 'store'][0][2]) for p in emitting}
+    if len(vals) != 1:
+        raise Untranslatable('the emitted row differs between paths')
+    pe = emitting[0]
+    emit = [ev for ev in pe.events if ev[0] == 'store'][0][2]
+
+    def final(p, name):
+        return p.env.get(name, ast.Name(id=name, ctx=ast.Load()))
+    # the quiet path that does not return (falls through) must leave the same locals
+    falls = [p for p in paths if p.kind == 'fall']
+    if not falls:
+        raise Untranslatable('no path falls through the loop body')
+    bump_ok = all(unp(final(p, 'min_i')) == 'min_i + 1' for p in emitting) and all(unp(final(p, 'min_i')) == 'min_i' for p in quiet)
+    # the loop-carried locals: stored in the loop body AND read by an iteration before it writes them (whatever they are called);
+    # exactly two, and the next value of one of them is the other (the "older" polynomial takes over the "newer" one)
+    stored = {n for n in killed if n not in (it, 'min_i', 'out')}
+    used = set()
+    for e in [final(falls[0], nm) for nm in stored] + [emit]:
+        used |= {n.id for n in ast.walk(e) if isinstance(n, ast.Name) and n.id in stored}
+    if len(used) != 2:
+        raise Untranslatable(f'{fn.name}: the loop carries {sorted(used)} from one iteration to the next (expected two polynomials)')
+    nxt = {nm: final(falls[0], nm) for nm in used}
+    older = [nm for nm in used if isinstance(nxt[nm], ast.Name) and nxt[nm].id in used and nxt[nm].id != nm]
+    if len(older) != 1:
+        raise Untranslatable(f'{fn.name}: no shift between the carried polynomials')
+    older = older[0]
+    newer = (used - {older}).pop()
+    same = all(unp(final(p, nm)) == unp(nxt[nm]) for p in falls for nm in used)
+    init = {nm: env.get(nm) for nm in used}
+    if any(v is None for v in init.values()):
+        raise Untranslatable(f'{fn.name}: a carried polynomial is not initialised before the loop')
+    return dict(rows=rows, init=init, nxt=nxt, emit=emit, it=it, first=first, env=env, start=start, older=older, newer=newer,
+                ok=order_ok and rng_ok and guard_ok and same and bump_ok)
+
+
+def abc_calls(exprs, fname='recurrence_abc'):
+    """distinct calls of fname inside the expressions: {text: call node}"""
+    out = {}
+    for e in exprs:
+        if e is None:
+            continue
+        for c in find_calls(e, fname):
+            out[unp(c)] = c
+    return out
+
+
+def hermite_seq_item(her):
+    out = []
+    for name, lname in (('hermite_He_der_seq', 'heSeq'), ('hermite_H_der_seq', 'hSeq')):
+        fn = normalised_def(her, name)
+        sw = seq_sweep(her, fn)
+        if sw['first'] != 3:
+            raise Untranslatable(f'{name}: explicit rows {sorted(sw["rows"])}')
+        o, nw = sw['older'], sw['newer']
+        tab = {'x': 'x', sw['it']: 'nn', o: 'q2', nw: 'q1'}
+        for k in (0, 1, 2):
+            out.append(f'def {lname}Row{k} (x : K) : K := {N(sw["rows"][k], {"x": "x"})}')
+        out.append(f'def {lname}Init (x : K) : K × K := ({N(sw["init"][o], {"x": "x"})}, {N(sw["init"][nw], {"x": "x"})})')
+        out.append(f'def {lname}Next (nn x q2 q1 : K) : K × K := ({N(sw["nxt"][o], tab)}, {N(sw["nxt"][nw], tab)})')
+        out.append(f'def {lname}Emit (nn x q2 q1 : K) : K := {N(sw["emit"], tab)}')
+        out.append(f'def {lname}LoopStart : Int := {sw["start"]}')
+        out.append(f'def {lname}Structure : Bool := {tri(sw["ok"])}')
+    return '\n'.join(out)
+
+
+def jacobi_seq_item(jac):
+    fn = normalised_def(jac, 'jacobi_der_seq')
+    sw = seq_sweep(jac, fn)
+    if sw['first'] != 4:
+        raise Untranslatable(f'jacobi_der_seq: explicit rows {sorted(sw["rows"])}')
+    o, nw = sw['older'], sw['newer']
+    # recurrence_abc calls: one in the explicit part (order 1), one in the loop (order i - 1), both with the shifted shape
+    pre = abc_calls([sw['rows'][3], sw['init'][nw]])
+    inl = abc_calls(list(sw['nxt'].values()) + [sw['emit']])
+    if len(pre) != 1 or len(inl) != 1:
+        raise Untranslatable('jacobi_der_seq: recurrence_abc is not called once before and once inside the loop')
+    (ptxt, pcall), (itxt, icall) = list(pre.items())[0], list(inl.items())[0]
+    shape = (N(pcall.args[1], {'alpha': 'alpha'}), N(pcall.args[2], {'beta': 'beta'}))
+    same_shape = [unp(a) for a in pcall.args[1:]] == [unp(a) for a in icall.args[1:]]
+    base = {'alpha': 'alpha', 'beta': 'beta', 'x': 'x'}
+    tp = dict(base, **{f'{ptxt}[0]': 'A', f'{ptxt}[1]': 'B', f'{ptxt}[2]': 'C'})
+    ti = dict(base, **{f'{itxt}[0]': 'A', f'{itxt}[1]': 'B', f'{itxt}[2]': 'C', sw['it']: 'i', o: 'q1', nw: 'q0'})
+    out = [f'def jacSeqRow{k} (alpha beta x A B C : K) : K := {N(sw["rows"][k], tp)}' for k in (0, 1, 2, 3)]
+    out.append(f'def jacSeqInit (alpha beta x A B C : K) : K × K := ({N(sw["init"][o], tp)}, {N(sw["init"][nw], tp)})')
+    out.append(f'def jacSeqNext (i alpha beta x A B C q1 q0 : K) : K × K := ({N(sw["nxt"][o], ti)}, {N(sw["nxt"][nw], ti)})')
+    out.append(f'def jacSeqEmit (i alpha beta x A B C q1 q0 : K) : K := {N(sw["emit"], ti)}')
+    out.append(f'def jacSeqShape (alpha beta : K) : K × K := ({shape[0]}, {shape[1]})')
+    out.append(f'def jacSeqInitABCIdx : Int := {I(pcall.args[0], [])}')
+    out.append(f'def jacSeqABCIdx (i : Int) : Int := {I(icall.args[0], [sw["it"]]).replace(sw["it"], "i") if sw["it"] != "i" else I(icall.args[0], ["i"])}')
+    out.append(f'def jacSeqLoopStart : Int := {sw["start"]}')
+    out.append(f'def jacSeqStructure : Bool := {tri(sw["ok"] and same_shape)}')
+    return '\n'.join(out)
+
+
+# ------------------------------------------------------------------------------------------------ delegations
+def _strip(node):
+    """remove shape-only wrappers: X.reshape(...), np.squeeze(X), np.asarray(X), list(X), tuple(X), _as_sequence(X)"""
+    while True:
+        if isinstance(node, ast.Call) and isinstance(node.func, ast.Attribute) and node.func.attr == 'reshape':
+            node = node.func.value
+        elif isinstance(node, ast.Call) and unp(node.func) in ('np.squeeze', 'np.asarray', 'np.array', 'list', 'tuple', '_as_sequence') and len(node.args) == 1:
+            node = node.args[0]
+        else:
+            return node
+
+
+def delegation(module, name, callee, order_param):
+    """`return callee(order, a, b, x) * (NUM / value_callee(order, a, b, <ones>))` (or without the normaliser): dict(shape, norm_shape,
+    num, ok)"""
+    fn = copy.deepcopy(normalised_def(module, name))
+    # `ns = list(ns)` / `ns = np.asarray(_as_sequence(ns))`: the same orders, kept by name
+    fn.body = [st for st in fn.body if not (isinstance(st, ast.Assign) and unp(st.targets[0]) == order_param
+                                            and unp(_strip(st.value)) == order_param)]
+    sx = SymEx(module)
+    paths = sx.run(fn)
+    if len(paths) != 1 or paths[0].kind != 'return' or any(ev[0] != 'bind' for ev in paths[0].events):
+        raise Untranslatable(f'{name}: not a straight-line delegation')
+    val = paths[0].value
+
+    def is_call(e, f):
+        return isinstance(e, ast.Call) and unp(e.func) == f
+
+    def shape_of(call):
+        if len(call.args) != 4 or call.keywords:
+            raise Untranslatable(f'{name}: {unp(call.func)} is not called with four positional arguments')
+        return (N(call.args[1], {}), N(call.args[2], {})), _strip(call.args[0]), call.args[3]
+    if is_call(val, callee):
+        shape, order, point = shape_of(val)
+        ok = unp(order) == order_param and unp(point) == 'x'
+        return dict(shape=shape, norm_shape=shape, num='(ofInt 1)', unnormalised=True, ok=ok)
+    if not (isinstance(val, ast.BinOp) and isinstance(val.op, ast.Mult)):
+        raise Untranslatable(f'{name}: the result is not a product')
+    sides = [val.left, val.right]
+    main = [s for s in sides if is_call(s, callee)]
+    if len(main) != 1:
+        raise Untranslatable(f'{name}: no single {callee}(...) factor')
+    other = _strip([s for s in sides if s is not main[0]][0])
+    if not (isinstance(other, ast.BinOp) and isinstance(other.op, ast.Div)):
+        raise Untranslatable(f'{name}: the normaliser is not a quotient')
+    den = _strip(other.right)
+    vcallee = 'jacobi_seq' if callee.endswith('_seq') else 'jacobi'
+    if not is_call(den, vcallee):
+        raise Untranslatable(f'{name}: the normaliser does not divide by {vcallee}(...)')
+    shape, order, point = shape_of(main[0])
+    nshape, norder, npoint = shape_of(den)
+    one = unp(npoint) == '1' or (isinstance(npoint, ast.Call) and unp(npoint.func) == 'np.ones')
+    num = Tr(nenv({order_param: 'n'}), mode='num').expr(other.left)
+    ok = unp(order) == order_param and unp(norder) == order_param and unp(point) == 'x' and one
+    return dict(shape=shape, norm_shape=nshape, num=num, unnormalised=False, ok=ok)
+
+
+def delegations(che, leg, lag, zer):
+    out = []
+    oks = []
+    for k in (1, 2, 3, 4):
+        for sfx, lsfx, op in (('', '', 'n'), ('_seq', 'Seq', 'ns')):
+            v = delegation(che, f'cheby{k}{sfx}', f'jacobi{sfx}', op)
+            d = delegation(che, f'cheby{k}_der{sfx}', f'jacobi_der{sfx}', op)
+            for tag, r in (('', v), ('Der', d)):
+                out.append(f'def cheby{k}{tag}{lsfx}Shape : K × K := ({r["shape"][0]}, {r["shape"][1]})')
+                out.append(f'def cheby{k}{tag}{lsfx}NormShape : K × K := ({r["norm_shape"][0]}, {r["norm_shape"][1]})')
+                out.append(f'def cheby{k}{tag}{lsfx}Num (n : K) : K := {r["num"]}')
+                oks.append(r['ok'] and not r['unnormalised'])
+    for sfx, lsfx, op in (('', '', 'n'), ('_seq', 'Seq', 'ns')):
+        v = delegation(leg, f'legendre{sfx}', f'jacobi{sfx}', op)
+        d = delegation(leg, f'legendre_der{sfx}', f'jacobi_der{sfx}', op)
+        for tag, r in (('', v), ('Der', d)):
+            out.append(f'def legendre{tag}{lsfx}Shape : K × K := ({r["shape"][0]}, {r["shape"][1]})')
+            oks.append(r['ok'] and r['unnormalised'])
+    out.append(f'def chebyLegendreDerivativesDelegateToJacobiAtSameOrdersAndPoint : Bool := {tri(all(oks))}')
+    # laguerre_der_seq: rows below order k are zero, the others are (-1)**k * laguerre_seq([n - k ...], alpha + k, x); every local
+    # (k, low, sign, shifted orders) is expanded by symbolic execution, so named intermediate steps do not matter
+    fn = copy.deepcopy(normalised_def(lag, 'laguerre_der_seq'))
+    fn.body = [st for st in fn.body if not (isinstance(st, ast.Assign) and unp(st.targets[0]) == 'ns' and unp(_strip(st.value)) == 'ns')]
+    sx = SymEx(lag)
+    paths = sx.run(fn)
+    if any(p.kind != 'return' for p in paths):
+        raise Untranslatable('laguerre_der_seq: a path does not return')
+    storing = [p for p in paths if any(ev[0] == 'store' for ev in p.events)]
+    if len(storing) != 1 or len([ev for ev in storing[0].events if ev[0] == 'store']) != 1:
+        raise Untranslatable('laguerre_der_seq: not exactly one store into the table')
+    tgt, val = [ev for ev in storing[0].events if ev[0] == 'store'][0][1:3]
+    lows = [norm('sum((1 for n in ns if n < 1))'), norm('len([n for n in ns if n < 1])'), norm('sum([1 for n in ns if n < 1])')]
+    low_txt = next((l for l in lows if norm(unp(tgt)) == norm(f'out[{l}:]')), None)
+    if low_txt is None:
+        raise Untranslatable(f'laguerre_der_seq: rows are stored into {unp(tgt)}')
+    if not (isinstance(val, ast.BinOp) and isinstance(val.op, ast.Mult)):
+        raise Untranslatable('laguerre_der_seq: stored rows are not sign * laguerre_seq(...)')
+    sides = [val.left, val.right]
+    calls = [e for e in sides if isinstance(e, ast.Call) and unp(e.func) == 'laguerre_seq']
+    if len(calls) != 1 or len(calls[0].args) != 3 or calls[0].keywords:
+        raise Untranslatable('laguerre_der_seq does not call laguerre_seq once')
+    call = calls[0]
+    sign = [e for e in sides if e is not call][0]
+    sign_ok = norm(unp(sign)) in (norm('(-1) ** 1'), '-1')
+    comp = call.args[0]
+    if not (isinstance(comp, ast.ListComp) and len(comp.generators) == 1 and not comp.generators[0].ifs
+            and isinstance(comp.generators[0].target, ast.Name)):
+        raise Untranslatable('laguerre_der_seq: orders are not a list comprehension')
+    v = comp.generators[0].target.id
+    order = Tr({v: 'n'}, mode='int').expr(comp.elt)
+    shape = Tr(nenv({'alpha': 'alpha'}), mode='num').expr(call.args[1])
+    src_ok = norm(unp(comp.generators[0].iter)) == norm(f'ns[{low_txt}:]') and unp(call.args[2]) == 'x'
+    gtext, gpol = canon_cond(ast.parse(f'{low_txt} < len(ns)', mode='eval').body, True)
+    guard_ok = (gtext, gpol) in storing[0].conds and all((gtext, not gpol) in p.conds for p in paths if p is not storing[0])
+    binds = [ev for ev in storing[0].events if ev[0] == 'bind' and unp(ev[1]) == 'out']
+    outz = len(binds) == 1 and unp(binds[0][2]).startswith('np.zeros(') and all(unp(p.value) == 'out' for p in paths)
+    out.append(f'def lagSeqOrder (n : Int) : Int := {order}')
+    out.append(f'def lagSeqShape (alpha : K) : K := {shape}')
+    out.append(f'def lagSeqRowsAreZeroBelowOrderOneAndMinusLaguerreSeqAbove : Bool := {tri(src_ok and guard_ok and outz and sign_ok)}')
+    # zernike_nm_der_seq: row j is zernike_nm_der(n, m, r, t, norm=norm) for the j-th pair
+    fn = normalised_def(zer, 'zernike_nm_der_seq')
+    loops = for_loops(fn)
+    zok = False
+    if len(loops) == 1:
+        lp = loops[0]
+        zok = norm(unp(lp.target)) == norm('(j, (n, m))') and norm(unp(lp.iter)) == norm('enumerate(nms)')
+        sx = SymEx(zer)
+        sx.identity = {'out'}
+        ps = sx.block(list(lp.body), {}, [], [])
+        zok = zok and len(ps) == 1 and [(ev[0], unp(ev[1]), unp(ev[2])) for ev in ps[0].events] == \
+            [('store', 'out[j]', norm('zernike_nm_der(n, m, r, t, norm=norm)'))]
+    out.append(f'def zernSeqRowIsTheSingleFormAtTheSameArguments : Bool := {tri(zok)}')
+    return '\n'.join(out)
+
+
 
 
 def generate(repo):
@@ -357,7 +670,13 @@ def generate(repo):
             raise Untranslatable('jacobi_der: n == 0 / n == 1 / general paths not found')
         if norm(unp(zero[0].value)) != norm('np.zeros_like(x)'):
             raise Untranslatable('jacobi_der: order 0 does not return zeros')
-        one_val = Tr(nenv({'np.ones_like(x)': '(ofInt 1)', 'n': '(ofInt 1)', 'alpha': 'alpha', 'beta': 'beta'}), mode='num').expr(one[0].value)
+        one_node = one[0].value
+        if isinstance(one_node, ast.Call) and ast.unparse(one_node.func) in ('np.full_like', 'numpy.full_like') and len(one_node.args) == 2 \
+                and not one_node.keywords and ast.unparse(one_node.args[0]) == 'x' and 'x' in float_entry_params(raw_def(jac, 'jacobi_der')):
+            # a constant array shaped and typed like x: the constant itself, PROVIDED x was made floating point on entry (on an
+            # integer x the fill value would be truncated - obligation gen_no_coordinate_typed_fill)
+            one_node = ast.BinOp(left=ast.parse('np.ones_like(x)', mode='eval').body, op=ast.Mult(), right=one_node.args[1])
+        one_val = Tr(nenv({'np.ones_like(x)': '(ofInt 1)', 'n': '(ofInt 1)', 'alpha': 'alpha', 'beta': 'beta'}), mode='num').expr(one_node)
         val = gen[0].value
         if not (isinstance(val, ast.BinOp) and isinstance(val.op, ast.Mult)):
             raise Untranslatable('jacobi_der: the general order is not a product')
@@ -385,6 +704,21 @@ def generate(repo):
                       'def jacDerShape (alpha beta : K) : K × K := (alpha + ofInt 1, beta + ofInt 1)',
                       'def jacDerAtOrderOne (alpha beta : K) : K := ofInt 1 * (ofFrac 1 2 * (ofInt 1 + alpha + beta + ofInt 1))',
                       'def jacDerIsCoefTimesJacobiAtSamePoint : Bool := true']))
+
+
+    # ---------------------------------------------------------------- sequence forms: the sweeps of the *_der_seq routines
+    g.item('hermite_der_seq', f'{HER}:hermite_He_der_seq,hermite_H_der_seq', lambda: get_def(her, 'hermite_H_der_seq'),
+           lambda: hermite_seq_item(her), 'def heSeqRow0 (x : K) : K := (Num.ofInt (0))\ndef heSeqRow1 (x : K) : K := (Num.ofInt (1))\ndef heSeqRow2 (x : K) : K := ((Num.ofInt (2)) * x)\ndef heSeqInit (x : K) : K × K := (x, ((x * x) - (Num.ofInt (1))))\ndef heSeqNext (nn x q2 q1 : K) : K × K := (q1, ((x * q1) - ((nn - (Num.ofInt (1))) * q2)))\ndef heSeqEmit (nn x q2 q1 : K) : K := (nn * q1)\ndef heSeqLoopStart : Int := 3\ndef heSeqStructure : Bool := true\ndef hSeqRow0 (x : K) : K := (Num.ofInt (0))\ndef hSeqRow1 (x : K) : K := (Num.ofInt (2))\ndef hSeqRow2 (x : K) : K := ((Num.ofInt (4)) * ((Num.ofInt (2)) * x))\ndef hSeqInit (x : K) : K × K := (((Num.ofInt (2)) * x), (((Num.ofInt (4)) * (x * x)) - (Num.ofInt (2))))\ndef hSeqNext (nn x q2 q1 : K) : K × K := (q1, ((((Num.ofInt (2)) * x) * q1) - (((Num.ofInt (2)) * (nn - (Num.ofInt (1)))) * q2)))\ndef hSeqEmit (nn x q2 q1 : K) : K := (((Num.ofInt (2)) * nn) * q1)\ndef hSeqLoopStart : Int := 3\ndef hSeqStructure : Bool := true')
+    g.item('jacobi_der_seq', f'{JAC}:jacobi_der_seq', lambda: get_def(jac, 'jacobi_der_seq'),
+           lambda: jacobi_seq_item(jac), 'def jacSeqRow0 (alpha beta x A B C : K) : K := (Num.ofInt (0))\ndef jacSeqRow1 (alpha beta x A B C : K) : K := ((Num.ofFrac (1) 2) * ((((Num.ofInt (1)) + alpha) + beta) + (Num.ofInt (1))))\ndef jacSeqRow2 (alpha beta x A B C : K) : K := ((((alpha + (Num.ofInt (1))) + (Num.ofInt (1))) + ((((alpha + (Num.ofInt (1))) + (beta + (Num.ofInt (1)))) + (Num.ofInt (2))) * ((x - (Num.ofInt (1))) / (Num.ofInt (2))))) * ((Num.ofFrac (1) 2) * ((((Num.ofInt (2)) + alpha) + beta) + (Num.ofInt (1)))))\ndef jacSeqRow3 (alpha beta x A B C : K) : K := (((((A * x) + B) * (((alpha + (Num.ofInt (1))) + (Num.ofInt (1))) + ((((alpha + (Num.ofInt (1))) + (beta + (Num.ofInt (1)))) + (Num.ofInt (2))) * ((x - (Num.ofInt (1))) / (Num.ofInt (2)))))) - C) * ((Num.ofFrac (1) 2) * ((((Num.ofInt (3)) + alpha) + beta) + (Num.ofInt (1)))))\ndef jacSeqInit (alpha beta x A B C : K) : K × K := ((((alpha + (Num.ofInt (1))) + (Num.ofInt (1))) + ((((alpha + (Num.ofInt (1))) + (beta + (Num.ofInt (1)))) + (Num.ofInt (2))) * ((x - (Num.ofInt (1))) / (Num.ofInt (2))))), ((((A * x) + B) * (((alpha + (Num.ofInt (1))) + (Num.ofInt (1))) + ((((alpha + (Num.ofInt (1))) + (beta + (Num.ofInt (1)))) + (Num.ofInt (2))) * ((x - (Num.ofInt (1))) / (Num.ofInt (2)))))) - C))\ndef jacSeqNext (i alpha beta x A B C q1 q0 : K) : K × K := (q0, ((((A * x) + B) * q0) - (C * q1)))\ndef jacSeqEmit (i alpha beta x A B C q1 q0 : K) : K := (q0 * ((Num.ofFrac (1) 2) * (((i + alpha) + beta) + (Num.ofInt (1)))))\ndef jacSeqShape (alpha beta : K) : K × K := ((alpha + (Num.ofInt (1))), (beta + (Num.ofInt (1))))\ndef jacSeqInitABCIdx : Int := (1 : Int)\ndef jacSeqABCIdx (i : Int) : Int := (i - (1 : Int))\ndef jacSeqLoopStart : Int := 3\ndef jacSeqStructure : Bool := true')
+
+    def deleg():
+        che, _ = load(repo, 'prysm/polynomials/cheby.py')
+        leg, _ = load(repo, 'prysm/polynomials/legendre.py')
+        return delegations(che, leg, lag, zer)
+    g.item('delegating_derivatives', f'prysm/polynomials/cheby.py:cheby1..4(_der)(_seq) prysm/polynomials/legendre.py:legendre(_der)(_seq) '
+           f'{LAG}:laguerre_der_seq {ZER}:zernike_nm_der_seq', lambda: get_def(lag, 'laguerre_der_seq'), deleg,
+           'def cheby1Shape : K × K := ((Num.ofFrac (-1) 2), (Num.ofFrac (-1) 2))\ndef cheby1NormShape : K × K := ((Num.ofFrac (-1) 2), (Num.ofFrac (-1) 2))\ndef cheby1Num (n : K) : K := (Num.ofInt (1))\ndef cheby1DerShape : K × K := ((Num.ofFrac (-1) 2), (Num.ofFrac (-1) 2))\ndef cheby1DerNormShape : K × K := ((Num.ofFrac (-1) 2), (Num.ofFrac (-1) 2))\ndef cheby1DerNum (n : K) : K := (Num.ofInt (1))\ndef cheby1SeqShape : K × K := ((Num.ofFrac (-1) 2), (Num.ofFrac (-1) 2))\ndef cheby1SeqNormShape : K × K := ((Num.ofFrac (-1) 2), (Num.ofFrac (-1) 2))\ndef cheby1SeqNum (n : K) : K := (Num.ofInt (1))\ndef cheby1DerSeqShape : K × K := ((Num.ofFrac (-1) 2), (Num.ofFrac (-1) 2))\ndef cheby1DerSeqNormShape : K × K := ((Num.ofFrac (-1) 2), (Num.ofFrac (-1) 2))\ndef cheby1DerSeqNum (n : K) : K := (Num.ofInt (1))\ndef cheby2Shape : K × K := ((Num.ofFrac (1) 2), (Num.ofFrac (1) 2))\ndef cheby2NormShape : K × K := ((Num.ofFrac (1) 2), (Num.ofFrac (1) 2))\ndef cheby2Num (n : K) : K := (n + (Num.ofInt (1)))\ndef cheby2DerShape : K × K := ((Num.ofFrac (1) 2), (Num.ofFrac (1) 2))\ndef cheby2DerNormShape : K × K := ((Num.ofFrac (1) 2), (Num.ofFrac (1) 2))\ndef cheby2DerNum (n : K) : K := (n + (Num.ofInt (1)))\ndef cheby2SeqShape : K × K := ((Num.ofFrac (1) 2), (Num.ofFrac (1) 2))\ndef cheby2SeqNormShape : K × K := ((Num.ofFrac (1) 2), (Num.ofFrac (1) 2))\ndef cheby2SeqNum (n : K) : K := (n + (Num.ofInt (1)))\ndef cheby2DerSeqShape : K × K := ((Num.ofFrac (1) 2), (Num.ofFrac (1) 2))\ndef cheby2DerSeqNormShape : K × K := ((Num.ofFrac (1) 2), (Num.ofFrac (1) 2))\ndef cheby2DerSeqNum (n : K) : K := (n + (Num.ofInt (1)))\ndef cheby3Shape : K × K := ((Num.ofFrac (-1) 2), (Num.ofFrac (1) 2))\ndef cheby3NormShape : K × K := ((Num.ofFrac (-1) 2), (Num.ofFrac (1) 2))\ndef cheby3Num (n : K) : K := (Num.ofInt (1))\ndef cheby3DerShape : K × K := ((Num.ofFrac (-1) 2), (Num.ofFrac (1) 2))\ndef cheby3DerNormShape : K × K := ((Num.ofFrac (-1) 2), (Num.ofFrac (1) 2))\ndef cheby3DerNum (n : K) : K := (Num.ofInt (1))\ndef cheby3SeqShape : K × K := ((Num.ofFrac (-1) 2), (Num.ofFrac (1) 2))\ndef cheby3SeqNormShape : K × K := ((Num.ofFrac (-1) 2), (Num.ofFrac (1) 2))\ndef cheby3SeqNum (n : K) : K := (Num.ofInt (1))\ndef cheby3DerSeqShape : K × K := ((Num.ofFrac (-1) 2), (Num.ofFrac (1) 2))\ndef cheby3DerSeqNormShape : K × K := ((Num.ofFrac (-1) 2), (Num.ofFrac (1) 2))\ndef cheby3DerSeqNum (n : K) : K := (Num.ofInt (1))\ndef cheby4Shape : K × K := ((Num.ofFrac (1) 2), (Num.ofFrac (-1) 2))\ndef cheby4NormShape : K × K := ((Num.ofFrac (1) 2), (Num.ofFrac (-1) 2))\ndef cheby4Num (n : K) : K := (((Num.ofInt (2)) * n) + (Num.ofInt (1)))\ndef cheby4DerShape : K × K := ((Num.ofFrac (1) 2), (Num.ofFrac (-1) 2))\ndef cheby4DerNormShape : K × K := ((Num.ofFrac (1) 2), (Num.ofFrac (-1) 2))\ndef cheby4DerNum (n : K) : K := (((Num.ofInt (2)) * n) + (Num.ofInt (1)))\ndef cheby4SeqShape : K × K := ((Num.ofFrac (1) 2), (Num.ofFrac (-1) 2))\ndef cheby4SeqNormShape : K × K := ((Num.ofFrac (1) 2), (Num.ofFrac (-1) 2))\ndef cheby4SeqNum (n : K) : K := (((Num.ofInt (2)) * n) + (Num.ofInt (1)))\ndef cheby4DerSeqShape : K × K := ((Num.ofFrac (1) 2), (Num.ofFrac (-1) 2))\ndef cheby4DerSeqNormShape : K × K := ((Num.ofFrac (1) 2), (Num.ofFrac (-1) 2))\ndef cheby4DerSeqNum (n : K) : K := (((Num.ofInt (2)) * n) + (Num.ofInt (1)))\ndef legendreShape : K × K := ((Num.ofInt (0)), (Num.ofInt (0)))\ndef legendreDerShape : K × K := ((Num.ofInt (0)), (Num.ofInt (0)))\ndef legendreSeqShape : K × K := ((Num.ofInt (0)), (Num.ofInt (0)))\ndef legendreDerSeqShape : K × K := ((Num.ofInt (0)), (Num.ofInt (0)))\ndef chebyLegendreDerivativesDelegateToJacobiAtSameOrdersAndPoint : Bool := true\ndef lagSeqOrder (n : Int) : Int := (n - (1 : Int))\ndef lagSeqShape (alpha : K) : K := (alpha + (ofInt 1))\ndef lagSeqRowsAreZeroBelowOrderOneAndMinusLaguerreSeqAbove : Bool := true\ndef zernSeqRowIsTheSingleFormAtTheSameArguments : Bool := true')
 
     # ---------------------------------------------------------------- zernike_nm_der
     def zern_roles():
@@ -563,7 +897,10 @@ def generate(repo):
         # with C10 (the two sides may be written out in the loop or live in a helper called once per side)
         sd = q2d_sides(qp, fn, loop)['sides']
         calls_ok = all(r['ok'] and r['coef_ok'] for r in sd.values()) and sd['Sa']['call'] == sd['Sprimea']['call'] \
-            and sd['Sb']['call'] == sd['Sprimeb']['call']
+            and sd['Sb']['call'] == sd['Sprimeb']['call'] and all(r.get('threshold') == 2 for r in sd.values())
+        # the m = 1 correction guarded by `N > K` with a literal K other than 2: recognised and wrong (sag and slope of that side
+        # lose or gain the -2/5 alpha_3 term for lists of exactly K + 1 or fewer coefficients)
+        thr_wrong = any(r.get('threshold') not in (None, 2) for r in sd.values())
         m0 = [s for s in fn.body if isinstance(s, ast.If) and 'cm0' in ast.unparse(s.test) and not is_rebind(s, 'cm0')]
         m0_ok = len(m0) == 1 and any(stmt_is(s, 'zm0, zprimem0 = compute_z_zprime_Qbfs(cm0, u, usq)') for s in m0[0].body) \
             and any(stmt_is(s, 'dr += zprimem0') for s in m0[0].body)
@@ -574,7 +911,7 @@ def generate(repo):
             f'def zzQ2dBTerm (s tw Spb m Sb : K) : K := {bt}',
             f'def zzQ2dDr (umm1 ta tb : K) : K := {dr}',
             f'def zzQ2dDt (m um Sa Sb s c : K) : K := {dt}',
-            f'def zzQ2dSlopeStructure : Bool := {tri(umm1_ok and usq_ok and calls_ok and m0_ok and ret_ok)}',
+            f'def zzQ2dSlopeStructure : Bool := {tri(umm1_ok and usq_ok and calls_ok and m0_ok and ret_ok, wrong=thr_wrong)}',
         ])
     g.item('compute_z_zprime_Q2d.slopes', f'{QP}:compute_z_zprime_Q2d', lambda: get_def(qp, 'compute_z_zprime_Q2d'), zzq2d,
            '\n'.join(['def zzQ2dTwoUsq (usq : K) : K := ofInt 2 * usq',
@@ -733,6 +1070,77 @@ def generate(repo):
     g.fact('derivativeRoutinesReadIterableArgumentsOnceOrMaterialiseFirst',
            f'{JAC}:jacobi_sum_clenshaw_der,jacobi_der_seq {QP}:clenshaw_qbfs_der,clenshaw_q2d_der,compute_z_zprime_Qbfs,compute_z_zprime_Qcon '
            f'{HER}:hermite_He_der_seq,hermite_H_der_seq {LAG}:laguerre_der_seq {ZER}:zernike_nm_der_seq', iter_fact)
+
+    COORDS = {'x', 'r', 't', 'u', 'usq'}
+
+    def converted_first(fn):
+        """coordinate parameters of fn that are re-bound to their floating-point copy before anything else reads them"""
+        conv = float_entry_params(fn)
+        out = set()
+        for c, k in conv.items():
+            if c in COORDS and not any(isinstance(n, ast.Name) and n.id == c for st in fn.body[:k] for n in ast.walk(st)):
+                out.add(c)
+        return out
+
+    def fill_fact():
+        # a constructor that takes its dtype from a coordinate array (np.full_like(x, v), np.full(shape, v, dtype=x.dtype), an output
+        # table np.zeros / np.empty(shape, dtype=x.dtype) that the rows are stored into) truncates the computed values on integer
+        # coordinates - unless the coordinates were made floating point first
+        che, _ = load(repo, 'prysm/polynomials/cheby.py')
+        leg, _ = load(repo, 'prysm/polynomials/legendre.py')
+        fns = [(jac, 'jacobi_der'), (jac, 'jacobi_der_seq'), (her, 'hermite_He_der'), (her, 'hermite_H_der'), (her, 'hermite_He_der_seq'),
+               (her, 'hermite_H_der_seq'), (lag, 'laguerre_der'), (lag, 'laguerre_der_seq'), (zer, 'zernike_nm_der'),
+               (zer, 'zernike_nm_der_seq'), (leg, 'legendre_der'), (leg, 'legendre_der_seq')] + \
+              [(che, f'cheby{k}_der{sfx}') for k in (1, 2, 3, 4) for sfx in ('', '_seq')]
+        for mod, name in fns:
+            fn = raw_def(mod, name)
+            coords = ({a.arg for a in fn.args.args} & COORDS) - converted_first(fn)
+            for c in ast.walk(fn):
+                if not isinstance(c, ast.Call):
+                    continue
+                f = ast.unparse(c.func)
+                has_dtype = any(k.arg == 'dtype' for k in c.keywords)
+                if f.endswith('full_like') and c.args and ast.unparse(c.args[0]) in coords and not has_dtype:
+                    fill = c.args[1] if len(c.args) > 1 else next((k.value for k in c.keywords if k.arg == 'fill_value'), None)
+                    if not (isinstance(fill, ast.Constant) and isinstance(fill.value, int)):
+                        return False
+                if f.endswith(('np.full', 'np.array', 'np.asarray', 'np.zeros', 'np.empty')) and any(
+                        k.arg == 'dtype' and ast.unparse(k.value) in {f'{q}.dtype' for q in coords} for k in c.keywords):
+                    return False
+        return True
+    g.fact('derRoutinesDoNotFillCoordinateTypedArraysWithComputedValues',
+           f'{JAC}:jacobi_der,jacobi_der_seq {HER}:hermite_*_der(_seq) {LAG}:laguerre_der(_seq) {ZER}:zernike_nm_der(_seq) cheby.py legendre.py', fill_fact)
+
+    def float_fact():
+        # the routines that do arithmetic of their own on the coordinates (x - 1, 2 - 4 * x, 1 - usq, -x, x * x, cos(m * t), an integer
+        # recurrence) must re-bind every coordinate parameter to its floating-point copy before anything else reads it: in the
+        # caller's narrow or unsigned integer type those expressions overflow or wrap around.  true: all do; false: one reads a
+        # raw coordinate in an arithmetic expression / hands it to a value routine; unknown: some other shape
+        must = [(jac, 'jacobi_der'), (jac, 'jacobi_der_seq'), (her, 'hermite_He_der'), (her, 'hermite_H_der'), (her, 'hermite_He_der_seq'),
+                (her, 'hermite_H_der_seq'), (lag, 'laguerre_der'), (zer, 'zernike_nm_der'), (qp, 'clenshaw_qbfs_der'),
+                (qp, 'clenshaw_q2d_der'), (qp, 'compute_z_zprime_Qbfs'), (qp, 'compute_z_zprime_Q2d')]
+        unknown = False
+        for mod, name in must:
+            fn = raw_def(mod, name)
+            for c in sorted({a.arg for a in fn.args.args} & COORDS):
+                if c in converted_first(fn):
+                    continue
+                # not converted: is the raw coordinate used in arithmetic or handed to another routine?
+                used = False
+                for n in ast.walk(fn):
+                    if isinstance(n, (ast.BinOp, ast.UnaryOp, ast.AugAssign)) and any(
+                            isinstance(q, ast.Name) and q.id == c for q in ast.iter_child_nodes(n)):
+                        used = True
+                    if isinstance(n, ast.Call) and not ast.unparse(n.func).startswith(('np.result_type', 'np.asarray', 'np.shape', 'np.ndim')) \
+                            and any(isinstance(q, ast.Name) and q.id == c for q in list(n.args) + [k.value for k in n.keywords]):
+                        used = True
+                if used:
+                    return False
+                unknown = True
+        return None if unknown else True
+    g.fact('derRoutinesComputeOnFloatingPointCopiesOfTheirCoordinates',
+           f'{JAC}:jacobi_der,jacobi_der_seq {HER}:hermite_*_der(_seq) {LAG}:laguerre_der {ZER}:zernike_nm_der '
+           f'{QP}:clenshaw_qbfs_der,clenshaw_q2d_der,compute_z_zprime_Qbfs,compute_z_zprime_Q2d', float_fact)
 
     return g.finish()
 
